@@ -47,7 +47,7 @@ META = dict(
 
 
 def tasks(tier, seed):
-    ts = [dict(kind='prog', **t) for t in c08.tasks(tier, seed)]
+    ts = [dict(t, kind='prog') for t in c08.tasks(tier, seed) if t.get('kind') != 'paths']
     # repeated string channel with different byte sizes across segments and sessions
     ts.append(dict(kind='strings', split=False))
     ts.append(dict(kind='strings', split=True))
